@@ -66,9 +66,12 @@ def gen_recovery_case(rng):
         shape = rng.choice([[10, 12, 12], [8, 10, 12]])
         kw = rng.choice([3, 4])
         cw = rng.choice([8, min(shape)])
-    return dict(kind=rng.choice(["synth", "maps"]), shape=shape, nc=rng.choice([4, 5, 6, 8]), calib_width=cw, kernel_width=kw,
-                thresh=rng.choice([0.01, 0.02, 0.03]), crop=rng.choice([0.8, 0.9, 0.95]), max_iter=100, dtype="complex64",
-                seed=rng.randrange(0, 2 ** 31), recovery=True)
+    c = dict(kind=rng.choice(["synth", "maps"]), shape=shape, nc=rng.choice([4, 5, 6, 8]), calib_width=cw, kernel_width=kw,
+             thresh=rng.choice([0.01, 0.02, 0.03]), crop=rng.choice([0.8, 0.9, 0.95]), max_iter=100, dtype="complex64",
+             seed=rng.randrange(0, 2 ** 31), recovery=True)
+    if rng.random() < 0.35:
+        c["kscale"] = rng.choice([1e-6, 1e-4, 1e3])      # ESPIRiT is invariant to the overall scale of k-space
+    return c
 
 
 def corpus():
@@ -77,6 +80,8 @@ def corpus():
              dtype="complex128", seed=0),                                                           # the test-suite input (defaults)
         dict(kind="synth", shape=[24, 24], nc=8, calib_width=16, kernel_width=6, thresh=0.02, crop=0.95, max_iter=100,
              dtype="complex64", seed=1, recovery=True),
+        dict(kind="maps", shape=[20, 20], nc=8, calib_width=16, kernel_width=6, thresh=0.02, crop=0.9, max_iter=100,
+             dtype="complex64", seed=3, recovery=True, kscale=1e-6),                                # tiny k-space, single precision
         dict(kind="random", shape=[8, 8], nc=2, calib_width=4, kernel_width=2, thresh=0.0, crop=0.0, max_iter=1,
              dtype="complex64", seed=2),
         dict(kind="random", shape=[10, 12], nc=3, calib_width=6, kernel_width=3, thresh=0.02, crop=1.5, max_iter=5,
@@ -106,6 +111,8 @@ def make_ksp(sp, c):
         img = sp.shepp_logan(shape) if c["kind"] == "synth" else np.ones(shape)
         ksp = sp.fft(mps * img, axes=axes)
         c["_img"] = np.abs(img)
+    if c.get("kscale"):
+        ksp = ksp * c["kscale"]
     return np.ascontiguousarray(ksp.astype(c["dtype"])), true
 
 
